@@ -48,6 +48,14 @@ def gen_knn_case(rng, tier, *, model=None, metrics=None, max_n=None, gclasses=No
     case = {"model": model, "metric": metric, "gclass": gc, "pattern": pattern, "X": X.tolist(), "Y": Y.tolist(),
             "V": V.tolist(), "YV": [int(v) for v in YV], "Q": Q.tolist(), "min_k": min_k, "max_k": max_k, "pre": None,
             "refit": bool(rng.random() < 0.15), "kwcall": bool(rng.random() < 0.2)}
+    if model == "knn" and rng.random() < 0.08:
+        # sparse class identifiers (0 and a few around 40000..100000): the accuracy measure divides by the largest identifier + 1, so a
+        # candidate with a validation error scores within 1e-5 of - but below - a perfect one
+        K_ = int(max(Y.max(), YV.max())) + 1
+        ids = np.concatenate([[0], np.sort(rng.choice(np.arange(30000, 100000), size=max(K_ - 1, 1), replace=False))])
+        case["Y"] = [int(ids[v]) for v in Y]
+        case["YV"] = [int(ids[v]) for v in YV]
+        case["sparse_ids"] = True
     if model == "unsup":
         r = rng.random()
         if r < 0.1:
